@@ -1,7 +1,17 @@
+"""C15 - mutating while iterating never crashes or damages the container."""
 from props import _generic as g
 
 
 def run(ctx):
-    fns = g.run_pyvc(ctx, "C15")
+    fams = ["II", "OO"] if ctx.tier == "quick" else ["II", "OO", "LF", "fs", "QQ"]
+    ctx.cvc(fams, ["M-IDX"])
     ctx.standin("iter_rt", families=tuple("OO,II".split(",")))
-    return "exploration", "bounded stand-in iter_rt (no obligation of the deductive engines serves C15 yet)"
+    return "other", (
+        "Engine C, M-IDX (translation units %s): the asserted precondition of getBucketEntry (0 <= i < b->len, read on every run "
+        "from the non-NDEBUG AST; compiled out of the extension) is proved at every call site, for ALL cursor states - i.e. whatever "
+        "mutations happened between two steps: BTreeItems_item (BTreeItems_seek executed in place, loops cut: the proof rests on "
+        "the final re-check of the offset against the activated bucket) and BTreeIter_next (cursor invariant currentoffset >= 0 "
+        "assumed on entry and proved at every write). So a lazy sequence / iterator never reads a leaf outside its current "
+        "length. The per-step outcome set {entry, stop, RuntimeError, IndexError}, the Python generators and soundness/contents of "
+        "the container afterwards are the bounded stand-in iter_rt (interleavings of steps and mutations, crash-isolated)."
+        % ", ".join(fams))
